@@ -1046,3 +1046,134 @@ Proof.
         destruct (Hact Ha) as [E1 _]. assert (Hi : In v (d_un F dy)) by (apply Hun; auto). rewrite E1 in Hi. destruct Hi. }
       exists dys, st, w. auto.
 Qed.
+
+(* ----- the state on entry to the loop (pmis_main_loop before the while) ----- *)
+Definition keepc (st : list label) (w : list F) (i : nat) : bool := is_U (nth i st LU) && negb (ltb (nth i w zero) one).
+Definition stc (st : list label) (w : list F) (i : nat) : label :=
+  if is_U (nth i st LU) && ltb (nth i w zero) one then LF else nth i st LU.
+Definition wc (st : list label) (w : list F) (i : nat) : F := if keepc st w i then nth i w zero else zero.
+
+Definition cls_step (q : list nat * list label * list F) (i : nat) :=
+  let '(un, st, w) := q in
+  if is_U (nth i st LU) && ltb (nth i w zero) one then (un, upd st i LF, upd w i zero)
+  else if is_U (nth i st LU) then (un ++ [i], st, w)
+  else (un, st, upd w i zero).
+
+Lemma cls_fold l : forall un st w,
+  NoDup l -> (forall i, In i l -> i < length st) -> length st = length w ->
+  exists st' w',
+    fold_left cls_step l (un, st, w) = (un ++ filter (keepc st w) l, st', w') /\
+    length st' = length st /\ length w' = length w /\
+    (forall v, ~ In v l -> nth v st' LU = nth v st LU /\ nth v w' zero = nth v w zero) /\
+    (forall i, In i l -> nth i st' LU = stc st w i /\ nth i w' zero = wc st w i).
+Proof.
+  induction l as [|x l IH]; intros un st w ND Hlt HL.
+  - exists st, w. simpl. rewrite app_nil_r. repeat split; auto; tauto.
+  - inversion ND as [|x' l' Hx Hl]; subst.
+    assert (Hxs : x < length st) by (apply Hlt; left; reflexivity). assert (Hxw : x < length w) by lia.
+    cbn [fold_left]. unfold cls_step at 2.
+    assert (Frame : forall st1 w1, (forall u, u <> x -> nth u st1 LU = nth u st LU /\ nth u w1 zero = nth u w zero) ->
+              filter (keepc st1 w1) l = filter (keepc st w) l /\
+              forall i, In i l -> stc st1 w1 i = stc st w i /\ wc st1 w1 i = wc st w i).
+    { intros st1 w1 H. split.
+      - apply filter_ext_in. intros u Hu. unfold keepc. destruct (H u) as [A B]; [intros ->; contradiction|]. rewrite A, B. reflexivity.
+      - intros i Hi. unfold stc, wc, keepc. destruct (H i) as [A B]; [intros ->; contradiction|]. rewrite A, B. auto. }
+    destruct (is_U (nth x st LU) && ltb (nth x w zero) one) eqn:E1; [|destruct (is_U (nth x st LU)) eqn:E2].
+    + destruct (IH un (upd st x LF) (upd w x zero) Hl) as [st' [w' [Hf [L1 [L2 [Fr Pr]]]]]].
+      { intros i Hi. rewrite upd_length. apply Hlt. right; exact Hi. } { rewrite !upd_length. exact HL. }
+      destruct (Frame (upd st x LF) (upd w x zero)) as [FF FP].
+      { intros u Hu. rewrite !nth_upd_other by auto. auto. }
+      exists st', w'. rewrite Hf. rewrite upd_length in L1. rewrite upd_length in L2.
+      assert (Hk : keepc st w x = false).
+      { unfold keepc. apply andb_true_iff in E1. destruct E1 as [A B]. rewrite A, B. reflexivity. }
+      split; [cbn [filter]; rewrite Hk, FF; reflexivity|]. split; [exact L1|]. split; [exact L2|]. split.
+      * intros v Hv. destruct (Fr v) as [A B]; [intros H; apply Hv; right; exact H|].
+        rewrite A, B, !nth_upd_other by (intros ->; apply Hv; left; reflexivity). auto.
+      * intros i [Ei|Hi].
+        { subst i. destruct (Fr x Hx) as [A B]. rewrite A, B, !nth_upd_same by assumption.
+          unfold stc, wc. rewrite E1, Hk. auto. }
+        { destruct (Pr i Hi) as [A B]. destruct (FP i Hi) as [C D]. rewrite A, B, C, D. auto. }
+    + destruct (IH (un ++ [x]) st w Hl) as [st' [w' [Hf [L1 [L2 [Fr Pr]]]]]].
+      { intros i Hi. apply Hlt. right; exact Hi. } { exact HL. }
+      exists st', w'. rewrite Hf.
+      assert (Hk : keepc st w x = true).
+      { unfold keepc. rewrite E2. simpl in E1. rewrite E1. reflexivity. }
+      split; [cbn [filter]; rewrite Hk, <- app_assoc; reflexivity|]. split; [exact L1|]. split; [exact L2|]. split.
+      * intros v Hv. apply Fr. intros H; apply Hv; right; exact H.
+      * intros i [Ei|Hi]; [|apply Pr; exact Hi]. subst i. destruct (Fr x Hx) as [A B]. rewrite A, B.
+        unfold stc, wc. rewrite E1, Hk. auto.
+    + destruct (IH un st (upd w x zero) Hl) as [st' [w' [Hf [L1 [L2 [Fr Pr]]]]]].
+      { intros i Hi. apply Hlt. right; exact Hi. } { rewrite upd_length. exact HL. }
+      destruct (Frame st (upd w x zero)) as [FF FP].
+      { intros u Hu. rewrite !nth_upd_other by auto. auto. }
+      exists st', w'. rewrite Hf. rewrite upd_length in L2.
+      assert (Hk : keepc st w x = false) by (unfold keepc; rewrite E2; reflexivity).
+      split; [cbn [filter]; rewrite Hk, FF; reflexivity|]. split; [exact L1|]. split; [exact L2|]. split.
+      * intros v Hv. destruct (Fr v) as [A B]; [intros H; apply Hv; right; exact H|].
+        rewrite A, B, !nth_upd_other by (intros ->; apply Hv; left; reflexivity). auto.
+      * intros i [Ei|Hi].
+        { subst i. destruct (Fr x Hx) as [A B]. rewrite A, B, nth_upd_same by assumption.
+          unfold stc, wc. rewrite E1, Hk. auto. }
+        { destruct (Pr i Hi) as [A B]. destruct (FP i Hi) as [C D]. rewrite A, B, C, D. auto. }
+Qed.
+
+Definition cls_rank (a : list (list nat) * list label * list F) (b : nat * nat) :=
+  let '(uns, st, w) := a in
+  let '(un, st', w') := fold_left cls_step (seq (fst b) (snd b)) ([], st, w) in
+  (uns ++ [un], st', w').
+
+Lemma cls_ranks bl : forall lo accu st w,
+  chain lo bl -> (forall b, In b bl -> fst b + snd b <= length st) -> length st = length w ->
+  exists st' w',
+    fold_left cls_rank bl (accu, st, w) =
+      (accu ++ map (fun b => filter (keepc st w) (seq (fst b) (snd b))) bl, st', w') /\
+    length st' = length st /\ length w' = length w /\
+    (forall v, (exists b, In b bl /\ in_block b v = true) -> nth v st' LU = stc st w v /\ nth v w' zero = wc st w v) /\
+    (forall v, ~ (exists b, In b bl /\ in_block b v = true) -> nth v st' LU = nth v st LU /\ nth v w' zero = nth v w zero).
+Proof.
+  induction bl as [|b bl IH]; intros lo accu st w Hch Hr HL.
+  - exists st, w. simpl. rewrite app_nil_r. repeat split; auto. intros v [b [[] _]].
+  - destruct Hch as [Elo Hch]. cbn [fold_left]. unfold cls_rank at 2.
+    destruct (cls_fold (seq (fst b) (snd b)) [] st w (seq_NoDup _ _)) as [st1 [w1 [Hf [L1 [L2 [Fr Pr]]]]]].
+    { intros i Hi. apply in_seq in Hi. specialize (Hr b (or_introl eq_refl)). lia. } { exact HL. }
+    rewrite Hf. cbn [app].
+    assert (Hlater : forall b' v, In b' bl -> in_block b' v = true -> ~ In v (seq (fst b) (snd b))).
+    { intros b' v Hb' Hv Hin. apply in_seq in Hin. pose proof (chain_later _ bl b' v Hch Hb' Hv). lia. }
+    destruct (IH (lo + snd b) (accu ++ [filter (keepc st w) (seq (fst b) (snd b))]) st1 w1 Hch) as [st' [w' [Hf2 [L3 [L4 [P Q]]]]]].
+    { intros b' Hb'. rewrite L1. apply Hr. right; exact Hb'. } { congruence. }
+    assert (Same : forall b' i, In b' bl -> In i (seq (fst b') (snd b')) ->
+               nth i st1 LU = nth i st LU /\ nth i w1 zero = nth i w zero).
+    { intros b' i Hb' Hi. apply Fr. apply (Hlater b' i Hb'). apply in_block_seq. exact Hi. }
+    exists st', w'. rewrite Hf2, <- app_assoc. split.
+    + cbn [map app]. do 4 f_equal. apply map_ext_in. intros b' Hb'. apply filter_ext_in. intros i Hi.
+      unfold keepc. destruct (Same b' i Hb' Hi) as [A B]. rewrite A, B. reflexivity.
+    + split; [congruence|]. split; [congruence|]. split.
+      * intros v [b' [[E|Hb'] Hv]].
+        { subst b'. destruct (Q v) as [A B].
+          { intros [b2 [H2 H3]]. apply (Hlater b2 v H2 H3). apply in_block_seq. exact Hv. }
+          rewrite A, B. apply Pr. apply in_block_seq. exact Hv. }
+        { destruct (P v) as [A B]; [exists b'; auto|]. rewrite A, B.
+          destruct (Same b' v Hb' (proj1 (in_block_seq b' v) Hv)) as [C D]. unfold stc, wc, keepc. rewrite C, D. auto. }
+      * intros v Hn. destruct (Q v) as [A B].
+        { intros [b2 [H2 H3]]. apply Hn. exists b2. split; [right; exact H2|exact H3]. }
+        destruct (Fr v) as [C D].
+        { intros Hin. apply Hn. exists b. split; [left; reflexivity|apply in_block_seq; exact Hin]. }
+        split; congruence.
+Qed.
+
+Lemma set_fold_nth {A} (f : nat -> A) cm : forall (v0 : list A) g d,
+  nth g (fold_left (fun v g => upd v g (f g)) cm v0) d =
+  if existsb (Nat.eqb g) cm && (g <? length v0) then f g else nth g v0 d.
+Proof.
+  induction cm as [|c cm IH]; intros v0 g d; simpl; [reflexivity|].
+  rewrite IH, upd_length, nth_upd. destruct (Nat.eqb_spec g c) as [E|E].
+  - subst g. rewrite Nat.eqb_refl. simpl. destruct (c <? length v0); [|rewrite andb_false_r; reflexivity].
+    rewrite andb_true_r. destruct (existsb (Nat.eqb c) cm); reflexivity.
+  - simpl. destruct (Nat.eqb_spec c g); [congruence|]. reflexivity.
+Qed.
+Lemma set_fold_length {A} (f : nat -> A) cm : forall (v0 : list A),
+  length (fold_left (fun v g => upd v g (f g)) cm v0) = length v0.
+Proof. induction cm as [|c cm IH]; intros v0; simpl; [reflexivity|]. rewrite IH. apply upd_length. Qed.
+
+Lemma combine_map_self {A B} (f : A -> B) l : combine l (map f l) = map (fun a => (a, f a)) l.
+Proof. induction l as [|a l IH]; simpl; [reflexivity|]. rewrite IH. reflexivity. Qed.
